@@ -263,6 +263,22 @@ theorem getLast?_raw (ts : List Token) (t : Token) (init : List Token) (e : ts =
   simp only [List.flatMap_append, List.flatMap_cons, List.flatMap_nil, List.append_nil, and_true]
   rcases rawOf_shape t with e | ⟨_, _, e, _⟩ <;> rw [e] <;> simp [List.getLast?_append]
 
+/-- `trim_end` leaves a line alone that ends in a token other than a blank run, or in remark
+    text without trailing white space -/
+theorem trimEnd_keeps (l : List Token) (x : Token) (hl : l.getLast? = some x)
+    (hx : ((∀ n, x ≠ .whitespace n) ∧ ∀ s, x ≠ .unknown s) ∨
+      ∃ s, x = .unknown s ∧ trimEndStr s = s ∧ s ≠ []) : trimEnd l = l := by
+  obtain ⟨ys, hys⟩ := List.getLast?_eq_some_iff.1 hl
+  subst hys
+  rcases hx with ⟨hw, hu⟩ | ⟨s, rfl, hs, hne⟩
+  · cases x with
+    | whitespace n => exact absurd rfl (hw n)
+    | unknown s => exact absurd rfl (hu s)
+    | _ => simp [trimEnd, trimEndRev]
+  · have : (trimEndStr s).isEmpty = false := by rw [hs]; simpa using hne
+    have h2 : (s = []) = False := by simpa using hne
+    simp [trimEnd, trimEndRev, hs, h2]
+
 theorem trimEnd_raw (ts : List Token) (h : endOk ts = true) : trimEnd (ts.flatMap rawOf) = ts.flatMap rawOf := by
   rcases List.eq_nil_or_concat ts with e | ⟨init, t, e⟩
   · subst e; rfl
@@ -280,25 +296,15 @@ theorem trimEnd_raw (ts : List Token) (h : endOk ts = true) : trimEnd (ts.flatMa
         cases t with
         | operator o => cases o <;> simp [rawOf] at e1 <;> (rw [← e1.2] at es; exact absurd es (by simp))
         | _ => simp [rawOf] at e1
-    unfold trimEnd
     rcases hlast with hl' | ⟨x, hl', hb, hu⟩
-    · rw [hl']
-      cases t with
+    · cases t with
       | whitespace n => simp at h
       | unknown s =>
-        simp only [hl']
         have hs : trimEndStr s = s ∧ s ≠ [] := by simpa using h
-        rw [hs.1]
-        have hne : s.isEmpty = false := by simpa using hs.2
-        simp only [hne, Bool.false_eq_true, if_false]
-        obtain ⟨ys, hys⟩ := List.getLast?_eq_some_iff.1 hl'
-        rw [hys]; simp
-      | _ => simp only [hl']
-    · rw [hl']
-      cases x with
-      | whitespace n => simp [isBlank] at hb
-      | unknown s => exact absurd rfl (hu s)
-      | _ => simp only [hl']
+        exact trimEnd_keeps _ _ hl' (Or.inr ⟨s, rfl, hs.1, hs.2⟩)
+      | _ => exact trimEnd_keeps _ _ hl' (Or.inl ⟨by intro n; simp, by intro s; simp⟩)
+    · exact trimEnd_keeps _ _ hl' (Or.inl ⟨by
+        intro n e; subst e; simp [isBlank] at hb, hu⟩)
 
 /-- the syntactic sufficient condition: no comparison operators next to (or one blank away from)
     each other, no `GO <blank> TO|SUB`, no two word-like tokens adjacent, no trailing blank run, no
